@@ -21,11 +21,12 @@ let action_of_string s =
   | ["BL"; t] -> M.BecomeLeaderReq (z t)
   | ["CW"; p] -> M.ClientWrite (z p)
   | ["LS"] -> M.LeaderSyncDone
+  | ["DS"; t] -> M.DeleteShardReq (z t)
   | _ -> failwith ("bad action " ^ s)
 let string_of_err = function
   | M.EInvalidTerm -> "term" | M.EInvalidStatus -> "status" | M.EAlreadyConnected -> "connected"
   | M.EInvalidNextOffset -> "nextoffset" | M.EOutOfBounds -> "bounds" | M.ENotLeader -> "notleader"
-  | M.ENotFound -> "notfound" | M.EWalRead -> "walread" | M.EClosed -> "closed" | M.ENoSuchStream -> "nostream" | M.EStream -> "stream"
+  | M.ENotFound -> "notfound" | M.EWalRead -> "walread" | M.EClosed -> "closed" | M.ENoSuchStream -> "nostream" | M.EStream -> "stream" | M.EPanic -> "panic"
 let string_of_result = function
   | M.ROk -> "ok"
   | M.RHead (t, o) -> "head:" ^ sz t ^ ":" ^ sz o
